@@ -98,6 +98,9 @@ func (p *Prog) derefUses(fn *ssa.Function, v ssa.Value) []ssa.Instruction {
 			case ssa.CallInstruction:
 				c := x.Common()
 				if c.IsInvoke() {
+					if c.Value == a {
+						out = append(out, r) // method call on a (possibly nil) interface result
+					}
 					continue
 				}
 				if f := staticCallee(x); f != nil && len(c.Args) > 0 && c.Args[0] == a && f.Signature.Recv() != nil {
@@ -166,7 +169,9 @@ func (c *Ctx) checkResultUse(rule string, fns []*ssa.Function, sel func(ci *ssa.
 			}
 			exs := extractsOf(call)
 			for ri := 0; ri < ei; ri++ {
-				if !isPointer(sig.Results().At(ri).Type()) {
+				rt := sig.Results().At(ri).Type()
+				_, isIface := rt.Underlying().(*types.Interface)
+				if !isPointer(rt) && !(c.ifaceResults && isIface) {
 					continue
 				}
 				for _, ex := range exs[ri] {
